@@ -199,3 +199,45 @@ func VerifC12AttachedProxy(s *Session) *VerifC12PD {
 	}
 	return o
 }
+
+// ---- C12: the migration window (hand-off written, not yet confirmed) ----
+
+// VerifC12KeyRegister runs the registration key exchange between a client Session and the
+// server-side view of it with the real key functions (keySessionGenerate, keyListenerInit,
+// keySessionSync) and a fresh Server KeyPair.
+func VerifC12KeyRegister(c, sv *Session) error {
+	var srv data.KeyPair
+	srv.Fill()
+	hello := &com.Packet{ID: SvHello, Device: c.ID}
+	c.keySessionGenerate(hello)
+	if err := sv.keyListenerInit(srv.Private, "verif", hello); err != nil {
+		return err
+	}
+	reply := &com.Packet{ID: SvComplete, Device: c.ID, Flags: com.FlagCrypt}
+	srv.Write(reply)
+	return c.keySessionSync(reply)
+}
+
+// VerifC12SetMoving marks the Session as MigrateProfile does before it writes the hand-off.
+func VerifC12SetMoving(s *Session) { s.state.Set(stateMoving) }
+
+// VerifC12IdleExchange is one idle exchange of the client with the re-key roll FORCED: the real
+// keyNextSync is called until its 1-in-(50+d) draw succeeds (at most max tries; its own guards
+// decide whether a rotation may start at all); the announcement (or, without one, an empty Packet)
+// is encrypted, given to the server's real keyCryptAndUpdate and the client's real keyCheckSync
+// runs as after every reply.  Returns whether a rotation was announced.
+func VerifC12IdleExchange(c, sv *Session, max int) (bool, error) {
+	var n *com.Packet
+	for i := 0; i < max && n == nil; i++ {
+		n = c.keyNextSync()
+	}
+	rot := n != nil
+	if n == nil {
+		n = &com.Packet{Device: c.ID}
+	}
+	n.KeyCrypt(c.keys)
+	if err := sv.keyCryptAndUpdate("verif", n, true); err != nil {
+		return rot, err
+	}
+	return rot, c.keyCheckSync()
+}
